@@ -318,7 +318,7 @@ class ProvXMLSerializer(Serializer):
         """
         rec_label = FULL_NAMES_MAP[rec_type]
 
-        for key, value in list(attributes):
+        for index, (key, value) in enumerate(attributes):
             if key != PROV_TYPE:
                 continue
             if isinstance(value, prov.model.Literal):
@@ -328,7 +328,9 @@ class ProvXMLSerializer(Serializer):
                 and PROV_BASE_CLS[value] != value
                 and PROV_BASE_CLS[value] == rec_type
             ):
-                attributes.remove((key, value))
+                # remove this very pair: list.remove() would take the first
+                # pair that compares equal, e.g. a URI value of the same URI
+                del attributes[index]
                 rec_label = FULL_NAMES_MAP[value]
                 break
         return rec_label
